@@ -180,13 +180,78 @@ def run_case(case):
         return [('machinery', f'{type(e).__name__}: {e}\n{traceback.format_exc()}')]
 
 
+def _cache_dir():
+    """Weather files for WeatherCache.tla: days 1 and 2 with a 24-hour valid_time axis, day 3 without;
+    the (uniform) eastward wind encodes Field(day, hour), the northward wind is 0."""
+    if 'cachedir' not in _w:
+        import atexit
+
+        import xarray as xr
+
+        from .traj_common import load_config
+
+        load_config()
+        d = Path(tempfile.mkdtemp(prefix='c16c-'))
+        atexit.register(shutil.rmtree, d, True)
+        shape = (len(PAD_LEVELS), len(PAD_LATS), len(PAD_LONS))
+        for day in (1, 2, 3):
+            if day in (1, 2):
+                times = np.array([np.datetime64(f'2024-09-0{day}T00') + np.timedelta64(h, 'h') for h in range(24)])
+                u = np.stack([np.full(shape, 100.0 * day + h) for h in range(24)])
+                ds = xr.Dataset({'u': (('valid_time', 'pressure_level', 'latitude', 'longitude'), u), 'v': (('valid_time', 'pressure_level', 'latitude', 'longitude'), np.zeros_like(u)),
+                                 't': (('valid_time', 'pressure_level', 'latitude', 'longitude'), np.full(u.shape, 220.0))},
+                                coords={'valid_time': times, 'pressure_level': PAD_LEVELS, 'latitude': PAD_LATS[::-1], 'longitude': PAD_LONS})  # fmt: skip
+            else:
+                u = np.full(shape, 100.0 * day + 99)
+                ds = xr.Dataset({'u': (('pressure_level', 'latitude', 'longitude'), u), 'v': (('pressure_level', 'latitude', 'longitude'), np.zeros_like(u)),
+                                 't': (('pressure_level', 'latitude', 'longitude'), np.full(u.shape, 220.0))},
+                                coords={'pressure_level': PAD_LEVELS, 'latitude': PAD_LATS[::-1], 'longitude': PAD_LONS})  # fmt: skip
+            ds.to_netcdf(d / f'2024090{day}.nc')
+            ds.close()
+        _w['cachedir'] = d
+    return _w['cachedir']
+
+
+def run_history(seq):
+    """One WeatherCache.tla behaviour on ONE Weather object: with zero airspeed the ground speed is the wind speed."""
+    warnings.simplefilter('ignore')
+    try:
+        import pandas as pd
+
+        from AEIC.trajectories.ground_track import GroundTrack
+        from AEIC.types import Location
+        from AEIC.utils.standard_atmosphere import altitude_from_pressure_isa_bada4
+        from AEIC.weather import Weather
+
+        w = Weather(data_dir=_cache_dir())
+        pt = GroundTrack.Point(Location(longitude=-74.5, latitude=40.5), 90.0)
+        alt = float(altitude_from_pressure_isa_bada4(np.array([250.0 * 100.0]))[0])
+        devs = []
+        try:
+            for i, q in enumerate(seq):
+                when = pd.Timestamp(f'2024-09-0{q["d"]}T{q["h"]:02d}:00:00', tz='UTC')
+                gs = w.get_ground_speed(time=when, gt_point=pt, altitude=alt, true_airspeed=0.0, azimuth=90.0)
+                if abs(gs - q['wind']) > 1e-6:
+                    prev = [(x['d'], x['h']) for x in seq[:i]]
+                    devs.append(('weather-cache:history-dependent', f'query (day {q["d"]}, hour {q["h"]}) after {prev} on one Weather object used wind {gs:.1f}; the file for that day and hour holds {q["wind"]}'))
+                    break
+        finally:
+            if w._main_ds is not None:
+                w._main_ds.close()
+        return devs
+    except Exception as e:
+        import traceback
+
+        return [('machinery', f'{type(e).__name__}: {e}\n{traceback.format_exc()}')]
+
+
 def run(ctx: Ctx):
     from .store_replay import pmap
 
     ctx.rule = (
         'cases (TLC-enumerated): 12 headings (cardinals and 3-4-5 directions) x airspeeds {100,200,250} x uniform winds from {0,+-15,+-20,+-25}^2 (1 764); '
         '4 spatially varying fields x 5 headings x 2x2 offsets x 27 half-lattice positions (2 160); 6 positions outside the domain; every case with and without a valid_time axis; '
-        'non-trivial = non-cardinal heading with non-zero wind'
+        'all 1 296 histories of 4 queries (3 days, one without time axis, x 2 hours) on one Weather object (WeatherCache.tla); non-trivial = non-cardinal heading with non-zero wind / history with a change of day or hour'
     )
     ctx.assumptions += [
         'the vertical lattice is mapped to altitudes with the library\'s own altitude_from_pressure_isa_bada4 (round trip verified in C12)',
@@ -200,6 +265,20 @@ def run(ctx: Ctx):
         cases = tlc.check(ctx, 'geo/WindGen', 'geo/Gen_Wind.cfg', workers=8)['emitted']
         ctx.exhaustive = True
         cases.sort(key=lambda k: (k['c']['kind'], str(k['c'].get('f')), k['c'].get('u', 0), k['c'].get('v', 0), k['c'].get('u0', 0), k['c'].get('v0', 0)))
+    if not ctx.replay:
+        tlc.check(ctx, 'geo/WeatherCache', 'geo/MC_WeatherCache.cfg', workers=8)
+        seqs = tlc.check(ctx, 'geo/WeatherCacheGen', 'geo/Gen_WeatherCache.cfg', workers=8)['emitted']
+        for seq, devs in zip(seqs, pmap(run_history, seqs)):
+            ctx.case_done(('history', seq), nontrivial=len({(q['d'], q['h']) for q in seq}) > 1)
+            ctx.sample({'weather_query_history': [(q['d'], q['h'], q['wind']) for q in seq]}, limit=4)
+            for key, desc in devs:
+                if key == 'machinery':
+                    raise MachineryError('weather worker failed: ' + desc)
+                ctx.violation(key, desc, {'history': seq})
+    elif 'history' in json.loads(Path(ctx.replay).read_text())['case']:
+        for key, desc in run_history(json.loads(Path(ctx.replay).read_text())['case']['history']):
+            ctx.violation(key, desc, {})
+        return
     for case, devs in zip(cases, pmap(run_case, cases)):
         c = case['c']
         s5, c5 = DIRS[c['h'] - 1]
